@@ -226,11 +226,13 @@ def points(draw, spec, *, dt=("pos", "neg"), extra_zero_dt=False):
 @st.composite
 def point_sequences(draw, spec, n, **kw):
     """n input points where consecutive points share some of their input groups (time step / state / control): a result
-    memoised on part of the inputs (a cache keyed by dt only, a static temporary, ...) shows up as a stale value."""
+    memoised on part of the inputs (a cache keyed by dt only, or by the operating point without dt — "state+control":
+    only the time step moves —, a static temporary, ...) shows up as a stale value."""
     pts = [draw(points(spec, **kw))]
     for _ in range(n - 1):
         fresh = draw(points(spec, **kw))
-        keep = draw(st.sampled_from(["none", "dt", "dt+state", "dt+control", "state", "control", "all-but-one", "all-but-one"]))
+        keep = draw(st.sampled_from(["none", "dt", "dt+state", "dt+control", "state", "control", "state+control", "state+control",
+                                     "all-but-one", "all-but-one"]))
         p = dict(fresh)
         prev = pts[-1]
         if keep == "all-but-one":
